@@ -1,8 +1,8 @@
 //! Generated-case runner shared by all property families: proptest `TestRunner`
 //! with fixed seeds, whole-case shrinking, statistics, evidence and replay files.
-use proptest::strategy::{BoxedStrategy, Strategy, ValueTree};
+use proptest::strategy::BoxedStrategy;
 use proptest::test_runner::{
-    Config, RngAlgorithm, RngSeed, TestCaseError, TestError, TestRng, TestRunner,
+    Config, RngSeed, TestCaseError, TestError, TestRunner,
 };
 use serde::de::DeserializeOwned;
 use serde::Serialize;
@@ -149,6 +149,12 @@ pub trait Family: Sync + Send + 'static {
     fn props(&self) -> Vec<PropSpec>;
     fn strategy(&self, prop: &str, tier: Tier) -> BoxedStrategy<Self::Case>;
     fn run(&self, prop: &str, case: &Self::Case, ctx: &mut CaseCtx) -> Result<(), Violation>;
+    /// Byte-level front-end for coverage-guided fuzzing: decode a case from raw bytes with
+    /// `arbitrary::Unstructured` (total: never loops, never fails on short input). Families
+    /// without a fuzz target keep the default.
+    fn decode(&self, _prop: &str, _u: &mut arbitrary::Unstructured) -> Option<Self::Case> {
+        None
+    }
 }
 
 const HASH_CAP: usize = 2_000_000;
@@ -467,25 +473,55 @@ fn derive_seed(seed: u64, worker: u64, prop: &str) -> u64 {
     h.finish()
 }
 
-/// Decode a case from raw bytes by feeding them to the strategy as its
-/// random stream (proptest's PassThrough RNG): the fuzz front-end.
-pub fn case_from_bytes<F: Family>(fam: &F, prop: &str, tier: Tier, data: &[u8]) -> Option<F::Case> {
-    let rng = TestRng::from_seed(RngAlgorithm::PassThrough, data);
-    let mut runner = TestRunner::new_with_rng(Config { failure_persistence: None, ..Config::default() }, rng);
-    let strategy = fam.strategy(prop, tier);
-    strategy.new_tree(&mut runner).ok().map(|t| t.current())
+/// Decode a case from raw fuzz bytes through the family's `decode` (arbitrary::Unstructured).
+/// (proptest's PassThrough RNG is not usable for this: every lazily generated union arm forks
+/// the stream by halving it, so deep strategies exhaust any input, and rand's uniform sampling
+/// then spins forever on the all-zero tail.)
+pub fn case_from_bytes<F: Family>(fam: &F, prop: &str, _tier: Tier, data: &[u8]) -> Option<F::Case> {
+    let mut u = arbitrary::Unstructured::new(data);
+    fam.decode(prop, &mut u)
 }
 
-/// Run one case; used by fuzz targets. Panics (so libFuzzer records a crash)
-/// on a violation that is not a tolerated known finding.
-pub fn fuzz_one<F: Family>(fam: &F, prop: &str, known: &Known, data: &[u8]) {
-    let Some(case) = case_from_bytes(fam, prop, Tier::Quick, data) else { return };
+static FUZZ_KNOWN: std::sync::OnceLock<Known> = std::sync::OnceLock::new();
+
+/// Call at the top of every fuzz iteration: libfuzzer-sys installs a panic hook that aborts the
+/// process, which would turn every caught contract panic (a failed transaction) into a crash;
+/// replace it with the quiet hook. Panics that escape the interpreter still abort (libfuzzer-sys
+/// catches the unwind and aborts), so harness bugs are not hidden.
+pub fn fuzz_setup() -> &'static Known {
+    static ONCE: std::sync::Once = std::sync::Once::new();
+    ONCE.call_once(install_quiet_panic_hook);
+    FUZZ_KNOWN.get_or_init(|| Known::load(&verif_root()))
+}
+
+/// Run one already-built case inside a fuzz target; aborts (so libFuzzer saves the input) on a
+/// violation that is not a tolerated known finding.
+pub fn fuzz_case<F: Family>(fam: &F, prop: &str, case: &F::Case) {
+    let known = fuzz_setup();
     let mut ctx = CaseCtx::new(prop, Tier::Quick, known);
-    if let Err(v) = fam.run(prop, &case, &mut ctx) {
-        let js = serde_json::to_string(&case).unwrap_or_default();
+    if let Err(v) = fam.run(prop, case, &mut ctx) {
+        let js = serde_json::to_string(case).unwrap_or_default();
         eprintln!("FUZZ-VIOLATION property={} signature={} message={}\ncase={}", v.property, v.signature, v.message, js);
         std::process::abort();
     }
+}
+
+/// Fuzz input layout: byte 0 selects the property among `props`, the rest is the strategy's
+/// input of the family's byte decoder.
+pub fn fuzz_one<F: Family>(fam: &F, props: &[&str], data: &[u8]) {
+    fuzz_setup();
+    if data.is_empty() {
+        return;
+    }
+    // VERIF_FUZZ_PROP pins the campaign to one property (used by `./check <ID> thorough`)
+    static PIN: std::sync::OnceLock<Option<String>> = std::sync::OnceLock::new();
+    let pin = PIN.get_or_init(|| std::env::var("VERIF_FUZZ_PROP").ok());
+    let prop = match pin {
+        Some(p) if props.contains(&p.as_str()) => p.as_str(),
+        _ => props[data[0] as usize % props.len()],
+    };
+    let Some(case) = case_from_bytes(fam, prop, Tier::Quick, &data[1..]) else { return };
+    fuzz_case(fam, prop, &case);
 }
 
 fn usage(name: &str) -> ! {
@@ -535,7 +571,8 @@ pub fn main_for<F: Family>(fam: F) -> ! {
                 eprintln!("INCONCLUSIVE: cannot read {}: {e}", args[3]);
                 std::process::exit(2)
             });
-            match case_from_bytes(&fam, prop, Tier::Quick, &data) {
+            // byte 0 of a fuzz input selects the property inside the target; the stream starts at byte 1
+            match case_from_bytes(&fam, prop, Tier::Quick, if data.is_empty() { &data } else { &data[1..] }) {
                 Some(c) => c,
                 None => {
                     println!("no case decodable from bytes");
